@@ -14,7 +14,8 @@ SEMANTIC = re.compile(r"postcondition not satisfied|precondition not satisfied|a
                       r"invariant not satisfied|decreases not satisfied|possible division by zero|possible bit shift|"
                       r"could not prove termination|unreachable|possible overflow|failed to prove|proof block|recommendation not met|"
                       r"bit.vector|nonlinear|by \(compute\)|index out of bounds|may be out of bounds|cannot show|value may be out of range|"
-                      r"cast|constructor precondition|possible truncation|is_variant|possible negative|requires clause")
+                      r"cast|constructor precondition|possible truncation|is_variant|possible negative|requires clause|"
+                      r"unable to prove post-condition of closure|fails to satisfy `callee\.requires")
 
 ASSUME_PATTERNS = [
     ("external_body", re.compile(r"external_body")),
@@ -207,6 +208,8 @@ def run(unit_name, repo, outdir, extra_args=(), probe=False, timeout=900):
                 ob = "%s::inv@%s#%d" % (fn, label, k)
             else:
                 ob = "%s::decreases@%s" % (fn, label)
+        elif label.startswith("closure"):
+            ob = "%s::%s" % (fn, label)
         else:
             ob = "%s::body" % fn
         # secondary span tells which call / which exit
